@@ -71,7 +71,7 @@ struct Stats {
 	std::map<std::string, std::string> notes;
 };
 
-inline Stats &stats() { static Stats s; return s; }
+inline Stats &stats() { static Stats *s = new Stats; return *s; }    // never destroyed: exit-time hooks (atexit, sanitizer death callback) still use it
 
 struct Config {
 	std::string focus;                // property id the run is deciding
@@ -81,7 +81,7 @@ struct Config {
 	bool verbose = false;
 	int journal_fd = -1;
 };
-inline Config &config() { static Config c; return c; }
+inline Config &config() { static Config *c = new Config; return *c; }
 
 inline uint64_t fnv1a(const std::string &s, uint64_t h = 1469598103934665603ull) {
 	for(unsigned char ch : s) { h ^= ch; h *= 1099511628211ull; }
@@ -90,7 +90,7 @@ inline uint64_t fnv1a(const std::string &s, uint64_t h = 1469598103934665603ull)
 
 // Sanitizer report flags (set by callbacks, turned into logical failures by the engine).
 struct SanFlags { int asan = 0, ubsan = 0, tsan = 0; std::string asan_text; bool expect_asan = false; };
-inline SanFlags &san() { static SanFlags f; return f; }
+inline SanFlags &san() { static SanFlags *f = new SanFlags; return *f; }
 inline int g_tsan_reports = 0;      // bumped by __tsan_on_report (atomically)
 
 struct Ctx {
